@@ -242,6 +242,8 @@ def scalar_ops(n, K, a, obj, P):
         fns = ["inc", "same", "ident", "shallow", "mutret"] + (["bad", "missing"] if P.get("invalid", True) else []) + (["raise"] if P.get("raising", False) else [])
         for fn in fns:
             ops.append(_call(f"transform_{n}", f"transform:{fn}", FN(fn), **f))
+        # an explicit None transform ("nothing to do"): the derived copy still must not alias the receiver's value
+        ops.append(_call(f"transform_{n}", "transform:none", None, **f))
         ops.append(_call(f"reset_{n}", "reset_attr", **f))
     if P.get("iffalse", True):
         ops.append(_call(f"with_{n}", "with:if_false", conf[0], _if=False))
